@@ -11,6 +11,7 @@ replayed along the history without any order, sorting, merging or searching:
 -/
 import DuneVerif.Proofs.C03Spec
 import DuneVerif.Proofs.C03Src
+import DuneVerif.Proofs.C03World
 
 namespace DV.C03
 
@@ -556,5 +557,159 @@ theorem lookups_match_source (xs : List Pair) (g : Int) :
     (lookupSrc Gen.search_get xs g).toGet = getL xs g ∧
     (lookupSrc Gen.search_getConst xs g).toGet = getL xs g :=
   ⟨lookupSrc_exists xs g, lookupSrc_at xs g, lookupSrc_at xs g, lookupSrc_get xs g, lookupSrc_get xs g⟩
+
+/-! ## round four: more of the source inside the theorems -/
+
+open Src in
+/-- the instantiation with `TL = LocalIndex` uses the GENERIC `LocalIndexComparator` (regenerated as `Gen.genericCompare`):
+on pairs of equal attribute — `LocalIndex` has none, the `NL` configurations carry attribute 0 throughout — sort functor and
+merge comparison with that comparator are the model's `before` as well -/
+theorem comparison_generic_matches_source (x y : Pair) (h : x.l.attr = y.l.attr) :
+    beforeSrc Gen.sortFunctor Gen.genericCompare x y = before x y ∧
+    beforeSrc Gen.mergeTakesOld Gen.genericCompare x y = before x y :=
+  ⟨beforeSrc_generic x y h, beforeSrc_generic x y h⟩
+
+example : (⟨3, ⟨1, 0, false, true⟩⟩ : Pair).l.attr = (⟨2, ⟨5, 0, false, true⟩⟩ : Pair).l.attr := rfl
+
+open Src in
+/-- `endResize()`: the container statements behind the check, in SOURCE ORDER (`std::sort` of the whole of `newIndices_`
+with `IndexSetSortFunctor`, then `merge()`; nothing the translator does not understand), followed by the scalar effects,
+are the model's `endResize` -/
+theorem endResize_calls_match_source (s : ISet) :
+    Call.unknown ∉ Gen.endResizeCalls ∧
+    (endResize s).map visible =
+      (mutatorSrc Gen.chk_endResize Gen.eff_endResize (runCalls Gen.endResizeCalls) s).map visible := by
+  refine ⟨by decide, ?_⟩
+  simp only [Gen.chk_endResize, Gen.eff_endResize, Gen.endResizeCalls, runCalls, List.foldl, Call.apply, mutatorSrc,
+    Check.rejects, Effects.apply, endResize]
+  cases h : s.st <;> simp [Except.map, visible]
+
+example : (Src.runCalls Gen.endResizeCalls { (run demo) with fresh := [⟨8, ⟨0,0,true,true⟩⟩, ⟨1, ⟨0,0,true,true⟩⟩] }).loc.map (·.g) =
+    [1, 2, 5, 7, 8, 9] := by decide
+
+open Src in
+/-- the loop of `renumberLocal()` — start value of the counter, its increment, the assigned expression, all read from the
+source — is the model's `renumFrom 0` -/
+theorem renumber_loop_matches_source :
+    ∃ r, Gen.renumber = some r ∧ ∀ xs, renumFrom 0 xs = renumSrc r r.start xs :=
+  ⟨_, rfl, fun xs => (renumSrc_canon xs 0).symm⟩
+
+open Src in
+/-- both constructors of `GlobalLookupIndexSet` — initial `size_`, the maximum loop, the number of (null) cells, the final
+`size_`, the slot each pair is stored in, all read from the source — build the model's tables, and `size()` is
+`max local + 1` resp. the size argument (cf. `reverse_lookup_inverts`, `reverse_lookup_sized`) -/
+theorem reverse_table_matches_source :
+    (∃ c, Gen.tableAuto = some c ∧
+      ∀ xs, tableSrc c 0 xs = (lookupAuto xs).map fun t => (t, ((maxLocal xs 0 + 1 : Nat) : Int))) ∧
+    (∃ c, Gen.tableSized = some c ∧
+      ∀ xs n, tableSrc c n xs = (lookupSized xs n).map fun t => (t, (n : Int))) :=
+  ⟨⟨_, rfl, tableSrc_auto⟩, ⟨_, rfl, tableSrc_sized⟩⟩
+
+example : (Gen.tableAuto.bind fun c => (Src.tableSrc c 0 (run demo).loc).map (·.2)) = some 4 := by decide
+
+/-! ## round four: several objects (copy construction, copy assignment, `operator==`) -/
+
+/-- a multi-object history: snapshot of the set, a further phase on the original, look at the snapshot, assign it back -/
+def demoW : List WOp :=
+  demo.map .op ++ [.snapshot, .op .beginResize, .op (.add 1 0 0 true), .op .endResize, .view, .restore, .op .seqNo]
+
+/-- EVERY object of EVERY multi-object history (the set under test after any interleaving of operations, copies into the
+snapshot and assignments back; the snapshot itself) is in the state that a single-object history reaches — `flat`
+computes these histories — so every theorem above about `run h` holds for each object -/
+theorem world_reachable (hw : List WOp) :
+    (runW hw).cur = run (flat hw).1 ∧ (runW hw).snap = (flat hw).2.map run :=
+  runWFrom_flat hw World.init [] none rfl rfl
+
+example : (flat demoW).1 = demo ++ [.seqNo] ∧ (flat demoW).2 = some demo := by decide
+
+/-- in particular both objects satisfy the invariant of reachable states -/
+theorem world_inv (hw : List WOp) : Inv (runW hw).cur ∧ ∀ s, (runW hw).snap = some s → Inv s := by
+  obtain ⟨h1, h2⟩ := world_reachable hw
+  refine ⟨h1 ▸ run_inv _, fun s hs => ?_⟩
+  rw [h2] at hs
+  obtain ⟨c, _, rfl⟩ := Option.map_eq_some_iff.1 hs
+  exact run_inv c
+
+/-- a copy is independent of its original: whatever is done to the set afterwards, the snapshot stays what it was -/
+theorem snapshot_independent (hw : List WOp) (ops : List Op) :
+    (runW (hw ++ ops.map .op)).snap = (runW hw).snap := by
+  unfold runW
+  rw [runWFrom_append, runWFrom_ops_snap]
+
+example : ((runW demoW).snap.map fun s => globals s.loc) = some [2, 5, 7, 9] ∧ (runW demoW).cur.seq = 2 := by decide
+
+/-- a fresh copy compares equal to its original (`operator==`), and assigning it back restores exactly the copied state -/
+theorem snapshot_roundtrip (w : World) :
+    (stepW (stepW w .snapshot).1 .view).2 = .view w.cur true ∧
+    ∀ ops : List Op, (stepW (runWFrom (stepW w .snapshot).1 (ops.map .op)) .restore).1.cur = w.cur := by
+  refine ⟨by simp [stepW, setsEqual], fun ops => ?_⟩
+  have h := runWFrom_ops_snap ops (stepW w .snapshot).1
+  simp only [stepW] at h ⊢
+  rw [h]
+
+/-! ## round four: `merge()` and the local index classes read from the source -/
+
+open Src in
+/-- `merge()` as a PROGRAM: the statements of its first branch and the three `while` loops of the second — loop guards,
+the decision tree of every loop body with the conditions (`DELETED` tests, comparison of old and added entry) and the
+`push_back` / `eraseToHere` statements in source order, the final `localIndices_ = tempPairs` — are regenerated from
+indexset.hh (`Gen.mergeCopyBranch`, `Gen.mergeProg`), interpreted over the two iterators (`Src.mergeSrc`), and yield the
+model's `merge` for EVERY state: no undefined step (`some`), same lists.  This replaces the hand transcription of the
+control flow of `merge()` as the tie for `mergeLoop`. -/
+theorem merge_program_matches_source (s : ISet) :
+    mergeSrc Gen.mergeCopyBranch Gen.plocalCompare Gen.mergeProg s = some (merge s) ∧
+    ∀ old added, mergeProgSrc Gen.plocalCompare Gen.mergeProg old added = some (mergeLoop old added) :=
+  ⟨mergeSrc_canon s, mergeProgSrc_canon⟩
+
+example : (Src.mergeProgSrc Gen.plocalCompare Gen.mergeProg (run (demo ++ [.beginResize, .markDel 7 0])).loc
+    [⟨3, ⟨0, 0, true, true⟩⟩, ⟨11, ⟨0, 0, true, true⟩⟩]).map (·.map (·.g)) = some [2, 3, 5, 9, 11] := by decide
+
+open Src in
+/-- the local index classes: the member initialisers of all constructors of `ParallelLocalIndex<T>` (three) and `LocalIndex`
+(two), the member assignments of `operator=(size_t)` and `setState`, and the order of `enum LocalIndexState`, read from
+plocalindex.hh / localindex.hh, build exactly the values the model stores: a new index is VALID, `add(g)` stores
+`(0, T(), false)`, the two-argument constructor local number 0, assignment overwrites the local number ONLY (attribute,
+public flag and the DELETED mark survive), `setState(DELETED)` touches the mark only -/
+theorem local_index_matches_source :
+    Gen.stateEnum = ["VALID", "DELETED"] ∧
+    (∃ c3 c2 c0 l1 l0, Gen.plocalCtor3 = some c3 ∧ Gen.plocalCtor2 = some c2 ∧ Gen.plocalCtor0 = some c0 ∧
+      Gen.lindexCtor1 = some l1 ∧ Gen.lindexCtor0 = some l0 ∧
+      ∀ (l a : Nat) (p : Bool),
+        c3.build [l, a, p.toNat] = { loc := l, attr := a, pub := p, valid := true } ∧
+        c2.build [a, p.toNat] = { loc := 0, attr := a, pub := p, valid := true } ∧
+        c0.build [] = defaultLocal ∧
+        l1.build [l] = { loc := l, attr := 0, pub := false, valid := true } ∧
+        l0.build [] = defaultLocal) ∧
+    (∀ (p : Pair) (k : Nat),
+      writeSrc Gen.plocalAssign [k] p.l = (setLoc p k).l ∧ writeSrc Gen.lindexAssign [k] p.l = (setLoc p k).l ∧
+      writeSrc Gen.plocalSetState [1] p.l = (setDeleted p).l ∧ writeSrc Gen.lindexSetState [1] p.l = (setDeleted p).l) :=
+  by
+  refine ⟨rfl, ⟨_, _, _, _, _, rfl, rfl, rfl, rfl, rfl, fun l a p => ?_⟩, fun p k => ?_⟩
+  · exact ⟨build_canon3 l a p, build_canon2 a p, build_canon0, build_canon1 l, build_canon0⟩
+  · exact ⟨write_assign p.l k, write_assign p.l k, (write_setState p.l).1, (write_setState p.l).1⟩
+
+example : (Gen.plocalCtor2.map fun c => c.build [2, 1]) = some { loc := 0, attr := 2, pub := true, valid := true } := by decide
+
+/-- the values assigned by `renumberLocal` fit its `uint32_t` counter: position `i` gets the number `i < size()`, so no
+wrap-around for sets of up to 2^32 entries -/
+theorem renumber_uint32_safe (xs : List Pair) (hlen : xs.length ≤ 4294967296) (i : Nat) (p : Pair)
+    (hp : (renumFrom 0 xs)[i]? = some p) : p.l.loc = i ∧ p.l.loc < 4294967296 := by
+  have hi : i < xs.length := by
+    have := (List.getElem?_eq_some_iff.1 hp).1
+    rwa [renumFrom_length] at this
+  rw [renumFrom_getElem?] at hp
+  obtain ⟨q, _, rfl⟩ := Option.map_eq_some_iff.1 hp
+  have h0 : (setLoc q (0 + i)).l.loc = i := by simp [setLoc]
+  exact ⟨h0, by omega⟩
+
+example : (renumFrom 0 (run demo).loc)[2]?.map (·.l.loc) = some 2 := by decide
+
+/-- `ParallelIndexSet()`: the member initialisers read from the source (`state_(GROUND), seqNo_(0), deletedEntries_()`) give
+the model's initial state every history starts from -/
+theorem constructor_matches_source :
+    ∃ c, Gen.setCtor = some c ∧ init = { loc := [], fresh := [], st := c.state, seq := c.seq, del := c.del } :=
+  ⟨_, rfl, rfl⟩
+
+example : init.st = .ground ∧ init.seq = 0 ∧ (run []).loc = [] := by decide
 
 end DV.C03
